@@ -19,7 +19,7 @@ PYOP = {'ADD': '+', 'SUB': '-', 'MUL': '*', 'DIV': '/', 'MOD': '%', 'POW': '**',
 def vm_math(b, stack_items, mode='LOGICAL'):
     m = lib.machine(b, mode, lib.light_set_with(b, {}))
     vmm = m.attrs['_vm_math']
-    st = vmm.attrs['_eval_stack'].attrs['_stack']
+    st = b.I.getattr_(vmm.attrs['_eval_stack'], '_stack')
     st.items.extend(stack_items)
     return m, vmm, st
 
@@ -252,7 +252,7 @@ def _eval_stack(b):
     es = b.new(('bardolph.vm.eval_stack', 'EvalStack'))
     depth = b.sym('int', 'depth')
     b.between(depth, 0, 10 ** 9)
-    st = es.attrs['_stack']
+    st = b.I.getattr_(es, '_stack')
     if isinstance(depth, int):
         st.items.extend([0] * min(depth, 200))
     else:
